@@ -380,6 +380,9 @@ prop('C11',
          dict(harness='c11_notification_protocol', name='c11_notification_open', covers=['c11.event.opened', 'c11.event.closed', 'c11.outbound.opened', 'c11.inbound.opened', 'c11.event.notification'],
               min_paths=100, split={'quick': 4, 'thorough': 6}, params={'quick': {'steps': 3, 'warm': 4, 'io_budget': 0, 'fifo_futures': 1}, 'thorough': {'steps': 4, 'warm': 4, 'io_budget': 0, 'fifo_futures': 1}},
               conform={'quick': 100, 'thorough': 1000}, nvals=40),
+         dict(harness='c11_notification_protocol', name='c11_notification_reopen', covers=['c11.event.opened', 'c11.race.stale-stream-task'],
+              min_paths=4, split=0, params={'quick': {'steps': 1, 'warm': 8, 'io_budget': 0, 'fifo_futures': 1}, 'thorough': {'steps': 2, 'warm': 8, 'io_budget': 0, 'fifo_futures': 1}},
+              conform={'quick': 50, 'thorough': 300}, nvals=40),
      ],
      assumptions=['one remote peer, one connection at a time; the remote is scripted through its substreams (sends its handshake and stays, or closes)',
                   'timers (10 s negotiation / open time-outs) never fire within the explored window',
